@@ -30,6 +30,7 @@ const (
 
 // G is one simulated goroutine.
 type G struct {
+	Pts   int // synchronisation points this goroutine has passed (independent of the scheduling mode)
 	ID     string
 	state  int
 	resume chan struct{}
@@ -38,6 +39,9 @@ type G struct {
 	// Held is the multiset of shim locks currently owned by this goroutine
 	// (a slice, not a map: runtime map code is visible to the race detector).
 	Held []any
+	prio   int64
+	hasPr  bool
+	runLen int
 	// OnBlock, when set, is consulted by nobody but harness code.
 	Tag string
 }
@@ -55,6 +59,12 @@ type Config struct {
 	StepBudget int           // controller decisions; 0 = unlimited
 	TimerP     float64       // probability that fake time advances although goroutines are runnable
 	IdleLimit  time.Duration // simulated time with nothing runnable => deadlock (default 2h)
+	// PCT > 0 selects priority scheduling (Burckhardt et al.): every goroutine gets a random priority when it
+	// first parks, the runnable goroutine of highest priority always runs, every scheduling point yields, and
+	// at PCT-1 seeded steps the goroutine chosen there drops to the lowest priority.  It reaches "A runs to
+	// completion before B makes its next move" orders that uniform random choice almost never produces.
+	PCT      int
+	PCTSteps int // horizon (in controller steps) within which the priority change points are drawn (default 3000)
 	AfterMain  int           // scheduler steps granted to the remaining goroutines after main has returned (default 300000)
 	TraceOn    bool
 }
@@ -249,7 +259,8 @@ func Point(site string) {
 		S.res.Points[site]++
 	}
 	g.consec++
-	if g.consec >= S.cfg.MaxConsec || (S.cfg.YieldP > 0 && Float() < S.cfg.YieldP) {
+	g.Pts++
+	if S.cfg.PCT > 0 || g.consec >= S.cfg.MaxConsec || (S.cfg.YieldP > 0 && Float() < S.cfg.YieldP) {
 		g.park()
 	}
 }
@@ -435,6 +446,16 @@ func Run(cfg Config, main func()) Result {
 		root.park()
 		main()
 	}()
+	var changeAt []int
+	lowest := int64(0)
+	if cfg.PCT > 1 {
+		if cfg.PCTSteps <= 0 {
+			cfg.PCTSteps = 3000
+		}
+		for i := 1; i < cfg.PCT; i++ {
+			changeAt = append(changeAt, Intn(cfg.PCTSteps))
+		}
+	}
 	mainDoneAt := -1
 	if cfg.AfterMain <= 0 {
 		cfg.AfterMain = 300000
@@ -526,6 +547,36 @@ func Run(cfg Config, main func()) Result {
 			}
 		}
 		pi := Intn(len(parked))
+		if cfg.PCT > 0 {
+			// highest priority first; priorities are drawn when a goroutine is first seen
+			for _, x := range parked {
+				if !x.hasPr {
+					x.prio, x.hasPr = int64(S.next()>>2), true
+				}
+			}
+			pi = 0
+			for i, x := range parked {
+				if x.prio > parked[pi].prio {
+					pi = i
+				}
+			}
+			for _, cp := range changeAt {
+				if cp == S.res.Steps {
+					lowest--
+					parked[pi].prio = lowest
+				}
+			}
+			if S.last == parked[pi].ID {
+				parked[pi].runLen++
+				if parked[pi].runLen > cfg.MaxConsec*20 {
+					// a polling loop at the top priority must not starve the rest for ever
+					lowest--
+					parked[pi].prio, parked[pi].runLen = lowest, 0
+				}
+			} else {
+				parked[pi].runLen = 0
+			}
+		}
 		g := parked[pi]
 		pick := g.ID
 		parked = append(parked[:pi], parked[pi+1:]...)
